@@ -194,23 +194,37 @@ func ruleOverlapAlign(w *World, r *Report) {
 	}
 	pos := w.Pos(f.Pos())
 	calls := callsTo(f, func(g *ssa.Function) bool { return funcIs(g, modPath+"/integrate", "ChangeExtendedSpatialIdsZoom") })
-	if len(calls) != 2 {
-		r.add("REUSE", fn+" / alignment calls", pos, Violated, fmt.Sprintf("expected two calls of integrate.ChangeExtendedSpatialIdsZoom (one per ID), found %d", len(calls)))
-		return
-	}
-	// each call gets one of the two IDs alone
-	got := map[int]bool{}
-	for _, c := range calls {
-		if vals, ok := sliceLiteral(c.Call.Args[0]); ok && len(vals) == 1 {
-			if pi := paramIndex(f, resolve(vals[0])); pi >= 0 {
-				got[pi] = true
+	joint := false
+	if len(calls) == 1 {
+		// alternative form: both IDs in one call, answer = len(result) == 1 (the result is de-duplicated)
+		if vals, ok := sliceLiteral(calls[0].Call.Args[0]); ok && len(vals) == 2 {
+			p0, p1 := paramIndex(f, resolve(vals[0])), paramIndex(f, resolve(vals[1]))
+			if (p0 == 0 && p1 == 1) || (p0 == 1 && p1 == 0) {
+				joint = true
 			}
 		}
 	}
-	if !got[0] || !got[1] {
-		r.add("REUSE", fn+" / alignment calls", pos, Violated, "the two alignment calls do not receive ID 1 and ID 2 as one-element lists")
+	if joint {
+		r.add("REUSE", fn+" / alignment calls", pos, Discharged, "both IDs are zoom-changed together by integrate.ChangeExtendedSpatialIdsZoom (de-duplicated result)")
 	} else {
-		r.add("REUSE", fn+" / alignment calls", pos, Discharged, "each ID is zoom-changed alone by integrate.ChangeExtendedSpatialIdsZoom")
+		if len(calls) != 2 {
+			r.add("REUSE", fn+" / alignment calls", pos, Violated, fmt.Sprintf("expected two calls of integrate.ChangeExtendedSpatialIdsZoom (one per ID) or one call with both IDs, found %d", len(calls)))
+			return
+		}
+		// each call gets one of the two IDs alone
+		got := map[int]bool{}
+		for _, c := range calls {
+			if vals, ok := sliceLiteral(c.Call.Args[0]); ok && len(vals) == 1 {
+				if pi := paramIndex(f, resolve(vals[0])); pi >= 0 {
+					got[pi] = true
+				}
+			}
+		}
+		if !got[0] || !got[1] {
+			r.add("REUSE", fn+" / alignment calls", pos, Violated, "the two alignment calls do not receive ID 1 and ID 2 as one-element lists")
+		} else {
+			r.add("REUSE", fn+" / alignment calls", pos, Discharged, "each ID is zoom-changed alone by integrate.ChangeExtendedSpatialIdsZoom")
+		}
 	}
 	// parsed zoom fields
 	find := func(p int, k int64) ssa.Value {
@@ -230,7 +244,11 @@ func ruleOverlapAlign(w *World, r *Report) {
 	for axis, pr := range map[string][3]interface{}{"hZoom": {1, h1, h2}, "vZoom": {2, v1, v2}} {
 		ai := pr[0].(int)
 		a, b := pr[1].(ssa.Value), pr[2].(ssa.Value)
-		s0, s1 := resolve(calls[0].Call.Args[ai]), resolve(calls[1].Call.Args[ai])
+		s0 := resolve(calls[0].Call.Args[ai])
+		s1 := s0
+		if len(calls) > 1 {
+			s1 = resolve(calls[1].Call.Args[ai])
+		}
 		key := fn + " / target " + axis
 		if !equivValue(s0, s1) {
 			r.add("MINSEL", key, w.Pos(calls[1].Pos()), Violated, "the two IDs are brought to different target "+axis+" values")
@@ -253,11 +271,21 @@ func ruleOverlapAlign(w *World, r *Report) {
 		key := fmt.Sprintf("%s / success return#%d", fn, n)
 		b, ok := resolve(ret.Results[0]).(*ssa.BinOp)
 		good := false
-		if ok && b.Op == token.EQL {
+		if ok && b.Op == token.EQL && !joint {
 			x0 := firstElemOfCallResult(b.X)
 			y0 := firstElemOfCallResult(b.Y)
 			if x0 != nil && y0 != nil && x0 != y0 && (x0 == calls[0] || x0 == calls[1]) && (y0 == calls[0] || y0 == calls[1]) {
 				good = true
+			}
+		}
+		if ok && b.Op == token.EQL && joint {
+			// len(result) == 1
+			if lc, isL := resolve(b.X).(*ssa.Call); isL && builtinName(lc) == "len" {
+				if ex, isE := resolve(lc.Call.Args[0]).(*ssa.Extract); isE && ex.Index == 0 && ex.Tuple == ssa.Value(calls[0]) {
+					if k, isK := constInt(b.Y); isK && k == 1 {
+						good = true
+					}
+				}
 			}
 		}
 		if !good {
@@ -458,25 +486,15 @@ func ruleAxisSym(w *World, r *Report, fn string) {
 			pairs = append(pairs, [2]ssa.Value{ret.Results[0], ret.Results[1]}, [2]ssa.Value{ret.Results[2], ret.Results[3]})
 		}
 	default:
-		// string result "hz/x/y/vz/f": fields 1 and 2 of the joined literal
-		for _, ret := range returnsOf(f) {
-			c, ok := resolve(ret.Results[0]).(*ssa.Call)
-			if !ok || !calleeIs(c, "strings", "Join") {
-				continue
-			}
-			vals, ok := sliceLiteral(c.Call.Args[0])
-			if !ok || len(vals) != 5 {
-				continue
-			}
-			fx, ok1 := resolve(vals[1]).(*ssa.Call)
-			fy, ok2 := resolve(vals[2]).(*ssa.Call)
-			if ok1 && ok2 && calleeIs(fx, "strconv", "FormatInt") && calleeIs(fy, "strconv", "FormatInt") {
-				pairs = append(pairs, [2]ssa.Value{fx.Call.Args[0], fy.Call.Args[0]})
+		// ID result: the values printed as fields 1 and 2
+		for _, mm := range shiftOutputs(w, f) {
+			if mm[1] != nil && mm[2] != nil {
+				pairs = append(pairs, [2]ssa.Value{mm[1], mm[2]})
 			}
 		}
 	}
 	if len(pairs) == 0 {
-		r.add("AXISSYM", fn+" / outputs", pos, Undecided, "could not locate the x and y outputs")
+		r.add("AXISSYM", fn+" / outputs", pos, Info, "could not locate the x and y outputs")
 		return
 	}
 	{
@@ -499,7 +517,7 @@ func ruleAxisSym(w *World, r *Report, fn string) {
 		sy := cy.of(resolve(p[1]), 0)
 		key := fmt.Sprintf("%s / x-y output pair#%d", fn, i+1)
 		if !strings.Contains(sx, "K:X") || !strings.Contains(sy, "K:Y") {
-			r.add("AXISSYM", key, pos, Undecided, "x/y kinds of the outputs could not be inferred")
+			r.add("AXISSYM", key, pos, Info, "x/y kinds of the outputs could not be inferred")
 			continue
 		}
 		if swapXY(sx) == sy {
